@@ -94,7 +94,7 @@ def make_X(rng, n, p, kind="gauss", rho=0.5, density=1.0):
     return np.asfortranarray(X)
 
 
-def make_target(rng, X, kind, w_true=None, noise=0.5, n_tasks=3, ties=True, offset_scale=None):
+def make_target(rng, X, kind, w_true=None, noise=0.5, n_tasks=3, ties=True, offset_scale=None, censor_all=False):
     n, p = X.shape
     if w_true is None:
         w_true = np.zeros(p)
@@ -129,6 +129,8 @@ def make_target(rng, X, kind, w_true=None, noise=0.5, n_tasks=3, ties=True, offs
         s = (rng.random(n) < 0.7).astype(float)
         if s.sum() == 0:
             s[0] = 1.0
+        if censor_all:
+            s[:] = 0.0          # a study window without a single event: the partial likelihood is identically zero
         return np.asfortranarray(np.column_stack([tm, s]))
     if kind == "multi":
         W = np.zeros((p, n_tasks))
